@@ -66,7 +66,7 @@ func (p *Pool) Get() any {
 		if p.head != nil {
 			head := p.head
 			p.head = head.next
-			if p.maxAge > 0 && head.lastUsed+p.maxAge < timex.Now() {
+			if p.maxAge > 0 && timex.Now()-head.lastUsed > p.maxAge {
 				p.created--
 				p.destroy(head.item)
 				continue
